@@ -800,7 +800,11 @@ impl HuffmanDecoder {
             None => return Err(ZiporaError::invalid_data("Empty Huffman tree")),
         };
 
-        let mut result = Vec::with_capacity(output_length);
+        // `output_length` usually comes from an untrusted size field. Every input bit yields at
+        // most one symbol (plus one final symbol), so clamp the pre-allocation to what the
+        // input can actually produce; a larger `output_length` fails the length check below.
+        let max_symbols = encoded_data.len().saturating_mul(8).saturating_add(1);
+        let mut result = Vec::with_capacity(output_length.min(max_symbols));
         let mut current_node = root;
 
         for &byte in encoded_data {
@@ -1327,6 +1331,12 @@ impl ContextualHuffmanEncoder {
         let tree_count = u32::from_le_bytes([data[offset], data[offset + 1], data[offset + 2], data[offset + 3]]) as usize;
         offset += 4;
 
+        // Every encoder has at least the Order-0 tree; tree 0 is also the implicit fallback
+        // for contexts that are missing from the map.
+        if tree_count == 0 {
+            return Err(ZiporaError::invalid_data("Contextual Huffman data has no trees"));
+        }
+
         // Read context map
         if offset + 4 > data.len() {
             return Err(ZiporaError::invalid_data("Truncated context count"));
@@ -1343,11 +1353,18 @@ impl ContextualHuffmanEncoder {
             offset += 4;
             let tree_idx = u32::from_le_bytes([data[offset], data[offset + 1], data[offset + 2], data[offset + 3]]) as usize;
             offset += 4;
+            if tree_idx >= tree_count {
+                return Err(ZiporaError::invalid_data(format!(
+                    "Context map tree index {} out of range (tree count {})",
+                    tree_idx, tree_count
+                )));
+            }
             context_map.insert(context, tree_idx);
         }
 
-        // Read trees
-        let mut trees = Vec::with_capacity(tree_count);
+        // Read trees. `tree_count` is untrusted: each serialized tree takes at least its
+        // 4-byte size prefix, so the remaining input bounds the useful capacity.
+        let mut trees = Vec::with_capacity(tree_count.min((data.len() - offset) / 4));
         for _ in 0..tree_count {
             if offset + 4 > data.len() {
                 return Err(ZiporaError::invalid_data("Truncated tree size"));
